@@ -56,6 +56,17 @@ def main():
     log = subprocess.run(["git", "-C", "/repo", "log", "--format=%h %s"], stdout=subprocess.PIPE, text=True).stdout.split("\n")
     fixes = ["* `%s`" % l for l in log if re.match(r"[0-9a-f]+ fix:", l)]
     s = sub_block(s, "FIX-LIST", "\n".join(fixes) if fixes else "(none yet)")
+    fa = []
+    for p in props:
+        pid = p["id"]
+        dn = os.path.join(VERIF, "design_notes", pid + ".md")
+        if not os.path.exists(dn):
+            continue
+        txt = open(dn).read()
+        m = re.search(r"^(#+)[^\n]*False alarms[^\n]*\n(.*?)(?=^#{1,6} |\Z)", txt, re.S | re.M | re.I)
+        if m and m.group(2).strip():
+            fa.append("**%s**\n\n%s\n" % (pid, m.group(2).strip()))
+    s = sub_block(s, "FALSE-ALARMS", "\n".join(fa) if fa else "(none recorded)")
     open(os.path.join(VERIF, "DESIGN.md"), "w").write(s)
     print("status table: %d rows, %d fix commits" % (len(rows) - 2, len(fixes)))
 
